@@ -59,7 +59,7 @@ CheckEv(e) ==
 
 TraceInit == l = 1 /\ TLCSet(7, 0)
 (* a rejected event does not stop the validation: the following events are still judged; the verdict line counts *)
-(* the events read, the REJECT lines name the rejected ones (checks/c19.py: accepted <=> no REJECT line)          *)
+(* the events read and the rejected ones (TLC register 7, single worker), the REJECT lines name them             *)
 TraceNext == l <= Len(Tr) /\ (CheckEv(Tr[l]) \in BOOLEAN) /\ l' = l + 1
 TraceSpec == TraceInit /\ [][TraceNext]_l
 Verdict ==
